@@ -51,9 +51,17 @@ def second_use(real):
 
 
 def observe_rt(p):
+    try:
+        return _observe_rt(p)
+    finally:
+        common.note_case(None)
+
+
+def _observe_rt(p):
     """(enc bytes|None, total_length, decode result, re-encode bytes|None, notes)"""
     real = pm.realize(p)
     import zlib
+    common.note_case(dict(kind='round-trip', value=repr(real)[:20000], what='encode(), decode(encode()), encode() again'))
     # every third value is built by filling its containers after construction (PDV items / variable items / user
     # data appended one by one), as application code that assembles a PDU step by step does
     h = zlib.crc32(repr(real).encode())
@@ -98,10 +106,13 @@ def observe_dec(t, raw):
     cls = classes_by_type().get(t)
     if cls is None:
         return ('err', KeyError(t))
+    common.note_case(dict(kind='decode', pdu_type=t, raw=bytes(raw).hex(), what='%s.decode(raw)' % cls.__name__))
     try:
         return ('ok', pm.from_impl(cls.decode(raw)))
     except Exception as e:  # noqa
         return ('err', e)
+    finally:
+        common.note_case(None)
 
 
 def dec_term(t, raw, obs):
@@ -109,6 +120,10 @@ def dec_term(t, raw, obs):
 
 
 # ------------------------------------------------------------------ generators
+PATHOLOGICAL_NAMES = [b'1.2.840.' + b'9' * 48 + b'A', b'1.' * 31 + b'x', b'1' * 63 + b'!', b'A' * 63 + b'1', b'1.2.3' + b' ' * 58 + b'x',
+                      b'.' * 63 + b'1', b'1.2.840.10008.1.1' + b' ' * 40 + b'.', b'9' * 40 + b'.' + b'9' * 20 + b'..', b'a1' * 31 + b'.']
+
+
 def gen_structured(tier, rng):
     """Mostly valid PDU values, enumerations first, then seeded random."""
     out = []
@@ -150,6 +165,18 @@ def gen_structured(tier, rng):
                ('ImplVersion', 0, pm.g_name(rng, n % 17))]
         out.append(('uidlen', pm.g_assoc(rng, [('AppCtx', 0, pm.g_uid(rng, n)), it, ('PcAc', 3, 0, 0, 0, 0, (0, pm.g_uid(rng, n))),
                                               ('UserInfo', 0, sub)])))
+    # text on which a pattern-based "tidying" of names degenerates: long runs of one class of character with the one
+    # character that does not fit at the very end (digits, dotted digits, padding, letters)
+    for k, name in enumerate(PATHOLOGICAL_NAMES):
+        it = ('PcRq', 1 + 2 * k, 0, 0, 0, 0, (0, name), [(0, name), (0, b'1.2.840.10008.1.2')])
+        sub = [('MaxLen', 0, 4, 16384), ('ImplClass', 0, name), ('RoleSel', 0, name, 1, 0), ('ExtNeg', 0, name, b'\1\2'),
+               ('ImplVersion', 0, name[:16])]
+        p = list(pm.g_assoc(rng, [('AppCtx', 0, name), it, ('PcAc', 3, 0, 0, 0, 0, (0, name)), ('UserInfo', 0, sub)]))
+        out.append(('pathological-text', tuple(p)))
+        p2 = list(pm.g_assoc(rng, [pm.g_item(rng, 'AppCtx')]))
+        p2[5] = name[-16:]
+        p2[6] = name[:16]
+        out.append(('pathological-text', tuple(p2)))
     # P-DATA: payload sizes around the boundaries, several PDVs
     for n in [0, 1, 2, 255, 256, 65529, 65530, 65531, 65535, 65536, 65537, 70000]:
         out.append(('pdata', ('PData', 0, [(1, ('pat', b'\x02', 7 + n, n))])))
